@@ -169,7 +169,8 @@ def isnan(obj: Any, check_all: bool) -> bool | Iterable[bool]:
         return unp.isnan(obj)
     try:
         return math.isnan(obj)
-    except TypeError:
+    except (TypeError, OverflowError):
+        # not a number, or an exact number too large for a float: not NaN
         return False
 
 
